@@ -41,9 +41,10 @@ PRED = {"Doc": {"hasAuthor": "author", "hasDate": "date", "hasDocVersion": "vers
                  "hasUncertainty": "uncertainty", "hasReference": "reference",
                  "hasValueOrigin": "value_origin", "hasId": "id"}}
 VAR_KIND = {"d": "Doc", "s": "Sec", "p": "Prop"}
-BAD = set(',():"\\\'\n\r\t{}<>')
+BAD = set(',():"\\\'\n\r\t<>')
 
-_W = st.sampled_from(["alpha", "beta", "gamma", "delta", "rec 1", "x-y", "Zeta", "ünï", "v1.2", "a_b", "42", "7"])
+_W = st.sampled_from(["alpha", "beta", "gamma", "delta", "rec 1", "x-y", "Zeta", "ünï", "v1.2", "a_b", "42", "7",
+                      "a{0}b", "{x}", "c}d", "{", "50%", "a;b", "q?", "$1", "a b  c"])
 
 
 def ok_value(v):
